@@ -22,8 +22,10 @@ Contract (documentation only; the sentences are quoted at the top of specs/Setti
   * downstream: dynamic_component_name ("the dynamic component is registered under the name"),
     multiline_tags ("`{{ my_var }}` can span multiple lines"; False leaves django.template.base.tag_re
     alone), template_cache_size ("maximum amount of Django templates to be cached"), autodiscover
-    ("run autodiscovery at the Django server startup"), reload_on_file_change ("configures Django to
-    reload when files ... change"), libraries ("modules that should be loaded").
+    ("run autodiscovery at the Django server startup": a python file kept in an app-level component
+    directory is imported or not), reload_on_file_change ("configures Django to reload when files inside
+    COMPONENTS.dirs or COMPONENTS.app_dirs change": Django's file_changed signal is sent for a file below a
+    component directory - a reload is triggered or not), libraries ("modules that should be loaded").
 
 Oracle: specs/Settings.tla.  Adm(user, form, base, k) is the SET of admissible results of reading the
 effective setting k; the state machine Set / Unset / Reform / Drop / SetBase / Load / Read / RegRead / CompDirs has
@@ -31,7 +33,7 @@ Read = Adm(current settings) and TLC checks the theorems DefaultsWhenEmpty, Form
 DeterminedUnlessAmbiguous, GivenWins, EmptyIsAValue, ContextBehaviorClosed, AliasEquivalent, DirsTheorems and the action
 properties ReadIsResolve, LocalityProp, SetThenRead, UnsetRestores, ReformNeutral.
 
-spec -> code: MC_X03/MCSpec - the complete settings graph of each of six key groups (every value of the
+spec -> code: MC_X03/MCSpec - the complete settings graph of each of seven key groups (every value of the
               group's domains, dict / instance / no COMPONENTS at all); every transition is exported and
               replayed on the real `app_settings`: the source settings are installed with
               django.test.override_settings, every accessor and a registry are read once (so anything the
@@ -39,7 +41,7 @@ spec -> code: MC_X03/MCSpec - the complete settings graph of each of six key gro
               and every accessor of the group / the registry created before the change /
               get_component_dirs() (group "paths": a sandbox with existing, missing and non-directory
               entries, two BASE_DIRs, a generated installed app) are read and compared with the admitted sets.
-              MC_X03/SSpec - every configuration of two key groups, exported with the effects a start-up
+              MC_X03/SSpec - every configuration of three key groups, exported with the effects a start-up
               must show; replayed by running AppConfig.ready() on pristine Django template internals
               (stock tag_re, no dynamic component registered, no template cache), and a sample of them
               again in genuinely new processes (settings.configure(COMPONENTS=...) + django.setup()).
@@ -67,6 +69,9 @@ Known deviations (classified by Settings!DevAdm / DevComponentDirs, never part o
   * get_component_dirs() returns the entries of COMPONENTS.dirs (and the default BASE_DIR/components) whether
     they are directories or not ("Paths that do not point to directories are ignored").
     Key `dirs-entry-not-a-directory:returned`.
+  * reload_on_file_change=True never triggers a reload: the file_changed receiver is a local function connected
+    with the default weak reference and is gone when the start-up returns.
+    Key `reload-on-file-change-true:no-reload-triggered`.
 """
 from __future__ import annotations
 
@@ -132,10 +137,12 @@ GROUPS: Dict[str, Dict[str, Any]] = {
               "bases": [SBASE, SNOBASE], "comp": True},
     "loading": {"keys": ["libraries", "cache", "autodiscover"], "extra": ["dirs", "template_cache_size"], "reg": [],
                 "bases": [BASE0, BASE1]},
+    "app-level": {"keys": ["app_dirs", "autodiscover", "reload_on_file_change"], "extra": ["dirs"], "reg": [],
+                  "bases": [SBASE], "comp": True},
     "misc": {"keys": ["debug_highlight_components", "debug_highlight_slots", "tag_formatter"],
              "extra": ["context_behavior", "cache"], "reg": ["tag_formatter"], "bases": [BASE0]},
 }
-STARTUP_GROUPS = ["downstream", "bool-aliases"]
+STARTUP_GROUPS = ["downstream", "bool-aliases", "app-level"]
 COUNTS = [1, 3, 140, 160]
 
 
@@ -651,8 +658,13 @@ def _exports_parallel(jobs: List[Tuple[str, Path]]) -> Dict[str, Tuple[List[Any]
 
 
 # ---------------------------------------------------------------- spec -> code: transitions
+OUTCOMES = {"explicit-none-cache-size-in-dict": DEV_OUTCOME, "dirs-entry-not-a-directory": DIRS_OUTCOME,
+            "reload-on-file-change-true": "no-reload-triggered"}
+
+
 def _key_of(devkey: str) -> str:
-    return f"{devkey}:{DIRS_OUTCOME if devkey.startswith('dirs-') else DEV_OUTCOME}"
+    """Finding key = input class named by the specification + the outcome the named deviation predicts."""
+    return f"{devkey}:{OUTCOMES[devkey]}"
 
 
 def replay_transition(row: Dict[str, Any], flavour: int = 0) -> List[Dict[str, Any]]:
@@ -795,7 +807,8 @@ def replay_startup(row: Dict[str, Any], flavour: int = 0,
     if o["fresh"] not in row["fresh"]:
         fail("context_behavior of a registry without own settings", row["fresh"], o["fresh"])
     if o["watch"] not in ("yes", "no") or V("bool", b=o["watch"] == "yes") not in row["watch"]:
-        fail(f"reload triggered by a changed file below {o['wtarget']}", row["watch"], o["watch"])
+        fail(f"reload triggered by a changed file below {o['wtarget']}", row["watch"], o["watch"],
+             _key_of(row["watchdevkey"]) if row["watchdevkey"] and o["watch"] == "no" else None)
     if V("bool", b=o["autod"] == "yes") not in row["autod"]:
         fail("python file of an app-level component directory imported at start-up", row["autod"], o["autod"])
     if not any(sorted(x["l"]) == sorted(o["loaded"]) for x in row["libs"]):
@@ -1060,9 +1073,9 @@ def run(tier: str) -> int:
     chk = Check(PID, tier, "model_checking")
     core(chk, tier)
     chk.cov["exhaustive"] = True
-    chk.cov["rule"] = ("every transition of the complete settings graph of six key groups (MC_X03/MCSpec: all values "
+    chk.cov["rule"] = ("every transition of the complete settings graph of seven key groups (MC_X03/MCSpec: all values "
                        "of the group's domains x dict / instance / no COMPONENTS) replayed on the real app_settings "
-                       "under override_settings with warm reads before the call; every configuration of two key "
+                       "under override_settings with warm reads before the call; every configuration of three key "
                        "groups (SSpec) replayed as an in-process start-up; random histories over all 17 keys "
                        "validated by Trace_X03. One evaluation = one transition, start-up or history; non-trivial = "
                        "some key given or a change; distinct by hash")
@@ -1284,9 +1297,6 @@ def selftest(tier: str) -> int:
         import django_components.autodiscovery as dauto
         return patch(dauto, "import_libraries", lambda *a, **k: [])
 
-    def reload_watch_never_installed():
-        return patch(dapps, "_watch_component_files_for_autoreload", lambda: None)
-
     probes = [
         ("component-dirs: empty dirs list means default", dirs_variant("empty-dirs-means-default")),
         ("component-dirs: first dirs entry only", dirs_variant("first-dirs-entry-only")),
@@ -1295,7 +1305,6 @@ def selftest(tier: str) -> int:
         ("component-dirs: tuple prefix taken for the path", dirs_variant("tuple-prefix-taken-for-the-path")),
         ("component-dirs: relative path silently skipped", dirs_variant("relative-path-silently-skipped")),
         ("libraries-not-imported-at-start-up", libraries_not_imported),
-        ("reload-watch-never-installed", reload_watch_never_installed),
         ("falsy-value-treated-as-unset", falsy_is_unset),
         ("settings-memoised-at-first-access", settings_memoised),
         ("settings-memoised-per-object-id", memoised_per_object),
@@ -1342,44 +1351,80 @@ def selftest(tier: str) -> int:
     import django_components as djc
     import django_components.util.loader as dload
     from contextlib import ExitStack
-    fixed_dirs = _patched_get_component_dirs()
+    pl = _patched_copy("django_components/util/loader.py", "dirs-entry-not-a-directory", "vfx03_patched_loader")
+    pa = _patched_copy("django_components/apps.py", "reload-on-file-change-true", "vfx03_patched_apps")
     chk = Counting(PID, "quick", "other", silent=True)
     with ExitStack() as st:
         st.enter_context(patch(IS, "TEMPLATE_CACHE_SIZE", property(fixed_size)))
-        if fixed_dirs is not None:
-            st.enter_context(patch(dload, "get_component_dirs", fixed_dirs))
-            st.enter_context(patch(djc, "get_component_dirs", fixed_dirs))
+        if pl is not None:
+            st.enter_context(patch(dload, "get_component_dirs", pl.get_component_dirs))
+            st.enter_context(patch(djc, "get_component_dirs", pl.get_component_dirs))
+        if pa is not None:
+            st.enter_context(patch(dapps, "_watch_component_files_for_autoreload",
+                                   pa._watch_component_files_for_autoreload))
         body(chk)
     ok = chk.violations == 0 and chk.keyed == 0
-    print(f"  both repairs in-process (explicit None honoured in the dict form: emulated; get_component_dirs: "
-          f"{'the function of the patched copy' if fixed_dirs else 'diff not applicable, current function'}): "
-          f"violations={chk.violations} known-finding cases={chk.keyed} -> {'clean' if ok else 'NOT CLEAN'}")
+    how = lambda m: "the function of the patched copy" if m else "diff not applicable, current function"  # noqa: E731
+    print(f"  all repairs in-process (explicit None in a dict: emulated; get_component_dirs: {how(pl)}; "
+          f"reload receiver: {how(pa)}): violations={chk.violations} known-finding cases={chk.keyed} -> "
+          f"{'clean' if ok else 'NOT CLEAN'}")
+    # second round, on the repaired library (a reload that is never triggered is the known finding itself, so a
+    # bug in the reload path can only be told apart once the receiver stays alive): repair + one bug each
+    def watch_variant(variant: str):
+        def watch():
+            from django.utils.autoreload import file_changed, trigger_reload
+            dirs = set(djc.get_component_dirs(include_apps=variant != "apps-not-watched"))
+
+            def template_changed(sender, file_path, **kwargs):
+                for d in ([file_path.parent] if variant == "direct-children-only" else file_path.parents):
+                    if d in dirs:
+                        trigger_reload(file_path)
+                        return
+            if variant != "never-installed":
+                file_changed.connect(template_changed, weak=False)
+        return watch
+
+    ok3 = True
+    for variant in ("never-installed", "apps-not-watched", "direct-children-only"):
+        c2 = Counting(PID, "quick", "other", silent=True)
+        with ExitStack() as st:
+            st.enter_context(patch(IS, "TEMPLATE_CACHE_SIZE", property(fixed_size)))
+            if pl is not None:
+                st.enter_context(patch(dload, "get_component_dirs", pl.get_component_dirs))
+                st.enter_context(patch(djc, "get_component_dirs", pl.get_component_dirs))
+            st.enter_context(patch(dapps, "_watch_component_files_for_autoreload", watch_variant(variant)))
+            model_check_startups(c2, ["bool-aliases"], rich=False)
+            validate_histories(c2, 60, 40)
+        n = c2.violations + c2.keyed
+        print(f"  probe (on the repaired library) reload-receiver: {variant}: {'killed' if n else 'SURVIVED'} "
+              f"(failing cases={n})")
+        ok3 = ok3 and n > 0
     ok2 = _validate_proposed_diff()
-    return rc if ok and ok2 else 1
+    return rc if ok and ok2 and ok3 else 1
 
 
-def _patched_get_component_dirs():
-    """get_component_dirs of a COPY of util/loader.py with proposed_fixes/X03-dirs-entry-not-a-directory*.diff
-    applied (None if there is no such diff or it no longer applies)."""
+def _patched_copy(relpath: str, diff_prefix: str, modname: str):
+    """The module of a COPY of /repo/src/<relpath> with proposed_fixes/X03-<diff_prefix>*.diff applied
+    (None if there is no such diff or it no longer applies to the current tree)."""
     import importlib.util
     import shutil
     import subprocess
     from .core import REPO, ROOT
-    diffs = sorted((ROOT / "proposed_fixes").glob(f"{PID}-dirs-entry-not-a-directory*.diff"))
+    diffs = sorted((ROOT / "proposed_fixes").glob(f"{PID}-{diff_prefix}*.diff"))
     if not diffs:
         return None
     w = workdir("x03fix2")
-    dst = w / "src" / "django_components" / "util"
-    dst.mkdir(parents=True)
-    shutil.copy(REPO / "src" / "django_components" / "util" / "loader.py", dst / "loader.py")
+    dst = w / "src" / relpath
+    dst.parent.mkdir(parents=True)
+    shutil.copy(REPO / "src" / relpath, dst)
     p = subprocess.run(["patch", "-p1", "-s", "-d", str(w), "-i", str(diffs[0])], capture_output=True, text=True)
     if p.returncode != 0:
         print(f"  proposed diff {diffs[0].name}: does not apply to the current tree (already fixed?)")
         return None
-    spec = importlib.util.spec_from_file_location("vfx03_patched_loader", dst / "loader.py")
+    spec = importlib.util.spec_from_file_location(modname, dst)
     mod = importlib.util.module_from_spec(spec)
     spec.loader.exec_module(mod)
-    return mod.get_component_dirs
+    return mod
 
 
 def _validate_proposed_diff() -> bool:
